@@ -90,6 +90,8 @@ def gen_plan(rng: random.Random, tier: str) -> dict:
                     events.append({"n": ev_no, "kind": kind, "addr": rng.randrange(4) if rng.random() < 0.75
                                    else 4 + rng.randrange(n_regions),    # >= 4: a region the viewer already polls
                                    "swallow": rng.random() < p_swallow, "raise": rng.random() < 0.1})
+                    if events[-1]["addr"] >= 4 and rng.random() < 0.5:
+                        events[-1]["new_seed"] = True
                     if events[-1]["addr"] >= 4 and kind == "EnableSimulator":
                         # (EnableSimulator has no field left to carry the harness's event number once IP, port and
                         #  handle are the real ones)
@@ -247,7 +249,9 @@ def run_plan(plan: dict) -> RunResult:
             """(address, handle, seed url, EnableSimulator port) an announcing event names."""
             if e["addr"] >= 4:
                 sp = specs[(e["addr"] - 4) % len(specs)]
-                return tuple(sp["addr"]), sp["handle"], sp["seed"], sp["addr"][1]
+                # (a region that is promoted from neighbour to main is announced with a fresh seed capability)
+                seed = sp["seed"] + (f"-renewed{e['n']}" if e.get("new_seed") else "")
+                return tuple(sp["addr"]), sp["handle"], seed, sp["addr"][1]
             a = ann_addr(e["addr"])
             return a, (7000 + e["addr"]) << 32, f"https://ann{e['addr']}.example.invalid/cap/seed", 20000 + e["n"]
 
